@@ -647,6 +647,31 @@ func watchCases() []scase {
 	return out
 }
 
+// abandonCases (real wrapper only, monitor only): the client stops reading and cancels while the handler is inside a
+// SendMsg that nobody will receive, then makes no further call. Outside "every send meets a ready receiver" as far as
+// transcripts go, but "a cancelled call leaves no goroutine behind" holds for it: the handler's SendMsg must give way
+// to the end of the call's context.
+func abandonCases() []scase {
+	var out []scase
+	for _, s := range [][4]string{
+		{"sstream", "R,M1,M2,M3", "OK", "s2,c,r,x"},
+		{"sstream", "R,Sa=1,M1", "OK", "s2,c,x"},
+		{"sstream", "R,M1,M2", "E9:e0", "s2,c,h,r,x"},
+		{"bidi", "R,M1,M2", "OK", "s1,r,x"},
+		{"bidi", "M1,R", "OK", "x"},
+		{"cstream", "R,M7,R", "OK", "s1,x"},
+	} {
+		out = append(out, scase{Shape: s[0], Out: "-", Srv: s[1], Fin: s[2], Cli: s[3], Abandon: true})
+		out = append(out, scase{Shape: s[0], Out: "u=1", Srv: s[1], Fin: s[2], Cli: s[3], Ctx: "K0", Abandon: true})
+	}
+	for _, v := range viaNames {
+		if viaOK(v, "sstream", "s2,c,r,x") {
+			out = append(out, scase{Shape: "sstream", Out: "-", Srv: "R,M1,M2,M3", Fin: "OK", Cli: "s2,c,r,x", Via: v, Abandon: true})
+		}
+	}
+	return out
+}
+
 // passCases: every call shape with a party whose message type is not the other side's (pass.go), messages in
 // both directions, payload 0 included (an int32 zero is not encoded at all).
 func passCases() []scase {
